@@ -171,9 +171,9 @@ pub fn corpus() -> Vec<Vec<u8>> {
                 _ => {}
             }
         }
-        for chain in [vec![(0x0101u16, vec![])], vec![(0x0303, vec![1, 2, 3, 4]), (0x0011, vec![9])], vec![(0x0202, vec![5, 6]), (0x0042, vec![7, 8, 9])], vec![(0x05FF, vec![1, 2, 3, 4, 5, 6, 7, 8]), (0x0404, vec![1, 2, 3, 4, 5, 6]), (0x0010, vec![])]] {
+        for chain in [vec![(0x0101u16, vec![])], vec![(0x0303, vec![1, 2, 3, 4]), (0x0011, vec![9])], vec![(0x0202, vec![5, 6]), (0x0042, vec![7, 8, 9])], vec![(0x05FF, vec![1, 2, 3, 4, 5, 6, 7, 8]), (0x0404, vec![1, 2, 3, 4, 5, 6]), (0x0010, vec![])], vec![(0x0202, vec![5, 6]), (0x0018, vec![1, 2, 3, 4, 5, 6, 7, 8])], vec![(0x0101, vec![]), (0x0011, vec![9]), (0x0303, vec![1, 2, 3, 4])], vec![(0x0011, vec![9]), (0x0018, vec![1, 2, 3, 4, 5, 6, 7, 8]), (0x0042, vec![7, 8, 9])], vec![(0x0100, vec![])], vec![(0x0500, vec![1, 2, 3, 4, 5, 6, 7, 8])]] {
             let pt = crate::props::c06::pt_for_chain(&chain);
-            for b in [30usize, 64] {
+            for b in [22usize, 30, 64] {
                 let mut enc = Encapsulator::new(DefaultCrc {});
                 let mut buf = vec![0u8; b];
                 if let Some(n) = do_encap_ext(&mut enc, &pd, 3, pt, l, &mut buf, &chain).len() {
@@ -200,7 +200,7 @@ pub fn corpus() -> Vec<Vec<u8>> {
 
 pub fn run(tier: Tier) -> i32 {
     let rep = Report::new("C05", tier);
-    rep.set_rule("complete product (receiver state) x (input buffer): states = all receiver snapshots reachable within 3 ops from 24 storage configurations (deduplicated); inputs = (a) all byte strings of length 0..=3, (b) fixed headers x buffer lengths {2..=24, pkt-1, pkt, pkt+1, pkt+9} x 17 adversarial tail fillers (quick: GSE lengths 0..=40 and 4080..=4095 of all 16 kind/label-type combinations; thorough: all 65536 headers in 12 states), (c) every truncation and every single-byte replacement by 00/FF/05 of a corpus of valid packets from the real encapsulator; distinct = outcome classes");
+    rep.set_rule("complete product (receiver state) x (input buffer): states = all receiver snapshots reachable within 3 ops from 24 storage configurations (deduplicated); inputs = (a) all byte strings of length 0..=3, (b) fixed headers x buffer lengths {2..=24, pkt-1, pkt, pkt+1, pkt+9} x 17 adversarial tail fillers (quick: GSE lengths 0..=40 and 4080..=4095 of all 16 kind/label-type combinations; thorough: all 65536 headers in 12 states), (c) every truncation and every single-byte replacement by 00/FF/05 of a corpus of valid packets from the real encapsulator (all kinds, labels, extension chains incl. non-final mandatory extensions with data in non-first position), (d) every corpus packet with its GSE length field re-announced to every value 0..=actual (buffer whole and truncated); distinct = outcome classes");
     rep.assume("the statement's 'random and mutated-valid packets up to 8 KiB' is replaced by the structured enumerations (b) and (c): sampling is not a deciding step");
     rep.assume("receiver states beyond 3 ops from the listed configurations are not covered by this check (C16 and C08 explore the closure with their own oracles)");
     let states = receiver_states(&rep, 3, true);
@@ -314,6 +314,32 @@ pub fn run(tier: Tier) -> i32 {
         rep.merge(acc);
     });
     rep.part(json!({"part":"(c) corpus truncations and byte replacements","corpus_packets":corp.len(),"in_states":states.len()}));
+
+    // (d) every re-announced length of every corpus packet: the GSE length field is set to every value
+    // 0..=actual (the packet "ends" inside any of its fields), with the buffer left whole and truncated
+    let d_states: Vec<usize> = if tier.thorough() { (0..states.len()).collect() } else { (0..states.len()).step_by(3).collect() };
+    let d_jobs: Vec<(usize, usize)> = d_states.iter().flat_map(|&si| (0..corp.len()).map(move |ci| (si, ci))).collect();
+    d_jobs.par_chunks(16).for_each(|chunk| {
+        if rep.over_time() {
+            rep.cap("(d): wall cap");
+            return;
+        }
+        let mut acc = Acc::default();
+        for &(si, ci) in chunk {
+            let s = &states[si];
+            let p = &corp[ci];
+            let gl = p.len() - 2;
+            for g in 0..=gl {
+                let mut m = p.clone();
+                m[0] = (m[0] & 0xF0) | ((g >> 8) as u8 & 0x0F);
+                m[1] = g as u8;
+                ck.one(&mut acc, s, si, &m, "d");
+                ck.one(&mut acc, s, si, &m[..g + 2], "d");
+            }
+        }
+        rep.merge(acc);
+    });
+    rep.part(json!({"part":"(d) every re-announced GSE length of every corpus packet","corpus_packets":corp.len(),"in_states":d_states.len()}));
     directed_large_storage(&rep, &ck);
     for (k, &si) in reps.iter().enumerate().take(3) {
         rep.sample(k as u64, || json!({"receiver_state": format!("{:?}", states[si]), "inputs": "all byte strings of length 0..=3"}));
